@@ -179,6 +179,23 @@ func (m *Machine) intrinsic(name string, fn *ssa.Function, args []Value) (Value,
 			out = append(out, m.encodeRune(res).cells...)
 		}
 		return Str{out}, true
+	case "internal/bytealg.IndexByteString", "internal/bytealg.IndexByte", "strings.IndexByte", "bytes.IndexByte":
+		cells := m.cellsOf(args[0])
+		c := m.term(args[1])
+		for i := range cells {
+			if m.branch(tt.Cmp("=", cells[i], c)) {
+				return tt.Const(64, uint64(i)), true
+			}
+		}
+		return tt.Const(64, ^uint64(0)), true
+	case "internal/bytealg.CountString", "internal/bytealg.Count":
+		cells := m.cellsOf(args[0])
+		c := m.term(args[1])
+		acc := tt.Const(64, 0)
+		for i := range cells {
+			acc = tt.Bin("bvadd", acc, tt.Ite(tt.Cmp("=", cells[i], c), tt.Const(64, 1), tt.Const(64, 0)))
+		}
+		return acc, true
 	case "sort.StringsAreSorted":
 		sl := args[0].(Slice)
 		r := tt.Bool(true)
